@@ -9,6 +9,9 @@ A case (JSON-serialisable, canonical):
          | "text"                            text
          | {"for": n, "kids": [item, ...]}   <py:for each="_ in range(n)">…</py:for>
          | {"frag": [node, ...]}             ${fragK}: a markup stream passed as data (generated markup)
+         | {"inc": node}                     <xi:include href="incK.xml"/> of a file holding that element (included markup)
+  optional "auto_reload": bool              the loader mode: false = static includes are inlined at prepare time,
+                                            true = the include is performed at render time
   match := {"match": path, "body": [bitem, ...], "buffer": bool, "once": bool, "recursive": bool}
   bitem := ["w", [bitem, ...]] | "text" | {"sel": spath}
 
@@ -142,6 +145,10 @@ def _items_src(items, frags):
             name = 'frag%d' % len(frags)
             frags.append((name, _plain_src(it['frag'])))
             out.append('${%s}' % name)
+        elif isinstance(it, dict) and 'inc' in it:
+            name = 'inc%d.xml' % len(frags)
+            frags.append((name, _plain_src([it['inc']])))
+            out.append('<xi:include href="%s"/>' % name)
         else:
             out.append('<%s>%s</%s>' % (it[0], _items_src(it[1], frags), it[0]))
     return ''.join(out)
@@ -151,7 +158,8 @@ def build_source(case):
     """-> (template source, [(data name, xml text of the fragment)])"""
     frags = []
     body = _items_src(case['kids'], frags)
-    return '<root xmlns:py="%s">%s</root>' % (PY_NS, body), frags
+    xi = ' xmlns:xi="http://www.w3.org/2001/XInclude"' if any(n.endswith('.xml') for n, _ in frags) else ''
+    return '<root xmlns:py="%s"%s>%s</root>' % (PY_NS, xi, body), frags
 
 
 def render_real(case, method='events'):
@@ -161,9 +169,24 @@ def render_real(case, method='events'):
     from genshi.core import Stream
     src, frags = build_source(case)
     try:
-        tmpl = MarkupTemplate(src)
+        files = dict((n, x) for n, x in frags if n.endswith('.xml'))
+        if files:
+            # included markup: an in-memory loader, in the mode the case asks for
+            from genshi.template import TemplateLoader
+            from io import StringIO
+
+            def memload(filename):
+                if filename not in files:
+                    raise IOError(filename)
+                return filename, filename, StringIO(files[filename]), (lambda: True)
+            loader = TemplateLoader([memload], auto_reload=bool(case.get('auto_reload', False)))
+            tmpl = MarkupTemplate(src, loader=loader)
+        else:
+            tmpl = MarkupTemplate(src)
         data = {}
         for name, xml in frags:
+            if name.endswith('.xml'):
+                continue
             # a fresh list-backed stream per render (generated markup)
             data[name] = Stream(list(XML('<f>%s</f>' % xml))[1:-1])
         stream = tmpl.generate(**data)
@@ -214,6 +237,8 @@ def _flat_items(items, out):
                 _flat_items(it['kids'], out)
         elif isinstance(it, dict) and 'frag' in it:
             _flat_nodes(it['frag'], out)
+        elif isinstance(it, dict) and 'inc' in it:
+            _flat_nodes([it['inc']], out)
         else:
             out.append(['S', it[0]])
             _flat_items(it[1], out)
@@ -310,7 +335,7 @@ def rand_nodes(rng, depth, width, names=DOC_NAMES, text=True):
 
 
 def rand_case(rng, ntmpl=None, hints=True, pos=False, late=0.15, kinds=('single', 'simple', 'generic'),
-              gen_markup=0.2, maxsel=2, depth=3, width=3):
+              gen_markup=0.2, maxsel=2, depth=3, width=3, inc=0.0):
     ntmpl = ntmpl or rng.choice([1, 2, 2, 3, 3, 4])
     names = DOC_NAMES + ['w', 'x']
     tmpls = []
@@ -353,6 +378,13 @@ def rand_case(rng, ntmpl=None, hints=True, pos=False, late=0.15, kinds=('single'
             kids[i] = {'for': rng.choice([1, 2]), 'kids': [kids[i]]}
         else:
             kids[i] = {'frag': [kids[i]]}
+    if rng.random() < inc:
+        # included markup: a top-level subtree moves into an included file (never inside an element,
+        # see known finding C12-include-in-match)
+        cand = [j for j, k in enumerate(kids) if isinstance(k, list)]
+        if cand:
+            i = rng.choice(cand)
+            kids[i] = {'inc': kids[i]}
     # declarations first, except a few declared late (after some content, or inside an element)
     head, tail = [], []
     for t in tmpls:
@@ -365,7 +397,10 @@ def rand_case(rng, ntmpl=None, hints=True, pos=False, late=0.15, kinds=('single'
         # somewhere among the top-level children, after at least one child
         j = rng.randrange(len(head) + 1, len(items) + 1)
         items.insert(j, t)
-    return {'kids': items}
+    case = {'kids': items}
+    if any(isinstance(k, dict) and 'inc' in k for k in items):
+        case['auto_reload'] = rng.random() < 0.5
+    return case
 
 
 def case_templates(case):
@@ -460,6 +495,8 @@ class Ref(object):
                     self.rw(it['kids'], anc, lo, hi, out)
             elif isinstance(it, dict) and 'frag' in it:
                 self.rw(it['frag'], anc, lo, hi, out)
+            elif isinstance(it, dict) and 'inc' in it:
+                self.rw([it['inc']], anc, lo, hi, out)
             else:
                 self.element(it, anc, lo, hi, out)
 
@@ -613,6 +650,8 @@ def expand_plain(items):
                 out.extend(expand_plain(it['kids']))
         elif isinstance(it, dict) and 'frag' in it:
             out.extend(expand_plain(it['frag']))
+        elif isinstance(it, dict) and 'inc' in it:
+            out.extend(expand_plain([it['inc']]))
         elif isinstance(it, dict):
             raise ValueError('declaration inside content')
         else:
